@@ -20,6 +20,7 @@ From V Require Import Spec.TzWriter.
 From V Require Import Proofs.TzCommon Proofs.TzEval Proofs.TzGrammar Proofs.TzRoundtrip Proofs.TzWriterRoundtrip Proofs.TzWriterFull Proofs.TzWriterBytes Proofs.C16.
 From V Require Import Proofs.TzFooterSpec.
 From V Require Import Model.C16 Proofs.C16Ops Proofs.TzAcceptSpec Proofs.TzAccept Proofs.TzAcceptFile.
+From V Require Import Proofs.TzStrSpec Proofs.TzStr Proofs.TzStrFile.
 Import ListNotations.
 Open Scope Z_scope.
 
@@ -439,14 +440,17 @@ Print Assumptions C16_tzif_v1_accepts_iff.
    ([footer_rule_res]) and its agreement with the last transition by [footer_consistent] (the
    reader's rule evaluation); a grammar of the accepted TZ strings as an independent predicate,
    and the agreement check against the calendar oracle, are what is missing
-   (C16_footer_agrees_consistent gives the latter inside the premise of C05) *)
+   (C16_footer_agrees_consistent gives the latter inside the premise of C05).
+   The TZ-string half is now supplied: C16_tz_string_accepts_iff, and
+   C16_tzif_v23_accepts_iff_grammar_partial below supersedes this statement (same shape, the
+   footer string judged by the grammar Proofs/TzStrSpec.v; only [footer_consistent] remains) *)
 Theorem C16_tzif_v23_accepts_iff_partial : forall d z, data_ok d ->
   (parse d = Val (Ok z) /\ byte_at d 4 <> 0) <-> (tzif_v23_accepts d = true /\ z = tzif_v23_zone d).
 Proof. exact v23_accepts_iff. Qed.
 Print Assumptions C16_tzif_v23_accepts_iff_partial.
 
 (* all files: [parse] accepts exactly [tzif_accepts] and returns [tzif_zone]; partial only through
-   the version-2/3 footer rule as said above *)
+   the version-2/3 footer rule as said above; superseded by C16_tzif_accepts_iff_grammar_partial *)
 Theorem C16_tzif_accepts_iff_partial : forall d z, data_ok d ->
   parse d = Val (Ok z) <-> tzif_accepts d = true /\ z = tzif_zone d.
 Proof. exact accepts_iff. Qed.
@@ -503,3 +507,91 @@ Example C16_tzif_reject_examples :
    tzif_accepts file_unterminated_v2 = false /\ parse file_unterminated_v2 = Val (Err EInvalidTzFile)).
 Proof. exact reject_examples. Qed.
 Print Assumptions C16_tzif_reject_examples.
+
+(** *** The POSIX TZ strings the reader accepts: an independent grammar on bytes *)
+
+(* Proofs/TzStrSpec.v (definitions only, no reader code; shared: the rule data types and the three
+   character classes) states the accepted language on bytes:
+     name offset                                                         -> Fixed
+     name offset name [offset] ',' day ['/' time] ',' day ['/' time]     -> Alternate
+   name = maximal run of ASCII letters, or '<' bytes-other-than-'>' '>', and 3..7 bytes of
+   [0-9A-Za-z+-]; offset = [+-]hh[:mm[:ss]], hh <= 24, mm, ss <= 59 (each a maximal digit run of any
+   length); time = hh[:mm[:ss]] with hh <= 24, or with [ext] (version 3) [+-]hh[:mm[:ss]] with
+   hh <= 167; day = Mm.w.d (1..12, 1..5, 0..6) | Jn (1..365) | n (0..365); UT offset = -offset,
+   missing DST offset = std - 3600 s, missing time = 7200 s.
+   For EVERY byte string s (length below 2^64) and both values of the version-3 flag the reader
+   answers Ok r exactly when the grammar accepts s, and r is the rule the grammar denotes;
+   outside the grammar the reader answers an error value (it never traps). *)
+Theorem C16_tz_string_accepts_iff : forall s ext r, zlen s <= u64_max ->
+  from_tz_string s ext = Val (Ok r) <-> tzstr_accepts ext s = true /\ r = tzstr_value ext s.
+Proof. exact from_tz_string_iff. Qed.
+Print Assumptions C16_tz_string_accepts_iff.
+Theorem C16_tz_string_rejects : forall s ext, zlen s <= u64_max ->
+  tzstr_accepts ext s = false -> exists e, from_tz_string s ext = Val (Err e).
+Proof. exact from_tz_string_rejects. Qed.
+Print Assumptions C16_tz_string_rejects.
+(* inhabited on both sides: HST10; EST5EDT,M3.2.0,M11.1.0 with the default DST offset and times; the
+   negative and the above-24 rule times are in the grammar exactly with the version-3 flag;
+   J1/167:59:59 and 365/-167:59:59 are the extreme times; refused: J0, hour 168, a 2-letter
+   name, offset hour 25, a DST name without rule, month 13, trailing blank, an unclosed quote,
+   the empty string; an hour with 22 leading zeros is accepted *)
+Example C16_tz_string_examples :
+  tzstr_parse false (B"HST10") = Some (Fixed (mk_ltt (-36000) false (Some (B"HST")))) /\
+  tzstr_parse false (B"EST5EDT,M3.2.0,M11.1.0") =
+    Some (Alternate (mk_alt (mk_ltt (-18000) false (Some (B"EST"))) (mk_ltt (-14400) true (Some (B"EDT")))
+                            (MonthWeekday 3 2 0) 7200 (MonthWeekday 11 1 0) 7200)) /\
+  tzstr_parse false (B"<-03>3<-02>,M3.5.0/-2,M10.5.0/-1") = None /\
+  tzstr_parse true (B"<-03>3<-02>,M3.5.0/-2,M10.5.0/-1") =
+    Some (Alternate (mk_alt (mk_ltt (-10800) false (Some (B"-03"))) (mk_ltt (-7200) true (Some (B"-02")))
+                            (MonthWeekday 3 5 0) (-7200) (MonthWeekday 10 5 0) (-3600))) /\
+  tzstr_parse true (B"IST-2IDT,M3.4.4/26,M10.5.0") =
+    Some (Alternate (mk_alt (mk_ltt 7200 false (Some (B"IST"))) (mk_ltt 10800 true (Some (B"IDT")))
+                            (MonthWeekday 3 4 4) 93600 (MonthWeekday 10 5 0) 7200)) /\
+  tzstr_parse false (B"IST-2IDT,M3.4.4/26,M10.5.0") = None /\
+  tzstr_parse true (B"AAA0BBB,J1/167:59:59,365/-167:59:59") =
+    Some (Alternate (mk_alt (mk_ltt 0 false (Some (B"AAA"))) (mk_ltt 3600 true (Some (B"BBB")))
+                            (Julian1WithoutLeap 1) 604799 (Julian0WithLeap 365) (-604799))) /\
+  tzstr_accepts true (B"AAA0BBB,J0,365") = false /\
+  tzstr_accepts true (B"AAA0BBB,J1/168,365") = false /\
+  tzstr_accepts true (B"AB0") = false /\
+  tzstr_accepts true (B"EST25") = false /\
+  tzstr_accepts true (B"EST5EDT") = false /\
+  tzstr_accepts true (B"EST5EDT,M13.1.0,M11.1.0") = false /\
+  tzstr_accepts true (B"EST5EDT,M3.2.0,M11.1.0 ") = false /\
+  tzstr_accepts true (B"EST0000000000000000000005") = true /\
+  tzstr_accepts true (B"<EST5") = false /\
+  tzstr_accepts true [] = false.
+Proof. exact tzstr_examples. Qed.
+Print Assumptions C16_tz_string_examples.
+
+(* the footer of a version 2 / 3 file: the reader's answer on the footer text is the grammar's *)
+Theorem C16_footer_rule_iff : forall d r, data_ok d ->
+  footer_rule_res d = Val (Ok r) <-> footer_rule_g d = Some r.
+Proof. exact footer_rule_iff. Qed.
+Print Assumptions C16_footer_rule_iff.
+
+(* version 2 / 3 files with the footer string judged by the grammar: [tzif_v23_accepts_g]
+   (Proofs/TzStrFile.v) = layout, records, tables, footer text as in C16_tzif_v23_accepts_iff_partial,
+   the trimmed footer text blank or in the TZ-string grammar ([footer_rule_g], extended times
+   exactly when the second header says version 3), and [footer_consistent].
+   PARTIAL: [footer_consistent] (Proofs/TzWriterFull.v) is still the reader's own evaluation:
+   the local time type the rule yields at the last transition time (leap-second corrected),
+   computed with the reader's find_local_time_type, must equal the type of the last transition.
+   An independent statement of that condition exists only as a sufficient one:
+   C16_footer_agrees_consistent ([footer_agrees], calendar oracle of Spec/Zone.v) under the
+   year-range premise of property C05; the converse, and the reader's behaviour where that
+   premise fails (its error OutOfRange near the i32 year limits), are what is missing for a
+   predicate free of reader code. *)
+Theorem C16_tzif_v23_accepts_iff_grammar_partial : forall d z, data_ok d ->
+  (parse d = Val (Ok z) /\ byte_at d 4 <> 0) <-> (tzif_v23_accepts_g d = true /\ z = tzif_v23_zone_g d).
+Proof. exact v23_accepts_iff_g. Qed.
+Print Assumptions C16_tzif_v23_accepts_iff_grammar_partial.
+Theorem C16_tzif_accepts_iff_grammar_partial : forall d z, data_ok d ->
+  parse d = Val (Ok z) <-> tzif_accepts_g d = true /\ z = tzif_zone_g d.
+Proof. exact accepts_iff_g. Qed.
+Print Assumptions C16_tzif_accepts_iff_grammar_partial.
+Example C16_tzif_accept_examples_grammar :
+  tzif_v23_accepts_g file_berlin_v2 = true /\ tzif_zone_g file_berlin_v2 = example_berlin /\
+  footer_rule_g file_berlin_v2 = Some (extra_rule example_berlin).
+Proof. exact accept_examples_g. Qed.
+Print Assumptions C16_tzif_accept_examples_grammar.
